@@ -136,7 +136,7 @@ func (o *observation) sig() string {
 // (filters of generated streams are direct objects).
 type stubGetter struct{ meta pdf.MetaInfo }
 
-func (g *stubGetter) GetMeta() *pdf.MetaInfo                         { return &g.meta }
+func (g *stubGetter) GetMeta() *pdf.MetaInfo                      { return &g.meta }
 func (g *stubGetter) Get(pdf.Reference, bool) (pdf.Native, error) { return nil, nil }
 
 func classify(err error) string {
@@ -313,7 +313,9 @@ type event struct {
 	D   int      `json:"d"` // 1-based index into the docs file
 	Lo  int64    `json:"lo"`
 	Hi  int64    `json:"hi"`
-	Res string   `json:"res"`
+	// Whole: no byte of the file is missing (intact or xref-damaged)
+	Whole bool     `json:"whole"`
+	Res   string   `json:"res"`
 	MR  string   `json:"mr"`
 	Per []perObj `json:"per"`
 	// not judged: labels for keys and coverage
@@ -617,7 +619,7 @@ func enumerate(ctx *core.Ctx, t *truth, cases, rules map[string]tableRow, st *ru
 			continue
 		}
 		lastSig, lastClass = sig, class
-		evs = append(evs, event{Lo: cut, Hi: cut, Res: ob.Res, MR: ob.MR, Per: ob.Per, Class: class, Kind: kind, Note: ob.Note, Tag: ob.Tag, Extra: ob.Extra})
+		evs = append(evs, event{Lo: cut, Hi: cut, Whole: c == n, Res: ob.Res, MR: ob.MR, Per: ob.Per, Class: class, Kind: kind, Note: ob.Note, Tag: ob.Tag, Extra: ob.Extra})
 	}
 	if len(evs) > 2 {
 		ctx.Ev.Sample(map[string]any{"kind": "observation of the real scan at one crash point (judged by Trace_SeqScan)", "file_bytes": n,
@@ -697,7 +699,7 @@ func damages(ctx *core.Ctx, t *truth, st *runStats) []event {
 		}
 		st.mu.Unlock()
 		n := int64(len(d))
-		evs = append(evs, event{Lo: n, Hi: n, Res: ob.Res, MR: ob.MR, Per: ob.Per, Class: "damage:" + name, Kind: "-", Damage: name, Note: ob.Note, Tag: ob.Tag, Extra: ob.Extra})
+		evs = append(evs, event{Lo: n, Hi: n, Whole: true, Res: ob.Res, MR: ob.MR, Per: ob.Per, Class: "damage:" + name, Kind: "-", Damage: name, Note: ob.Note, Tag: ob.Tag, Extra: ob.Extra})
 	}
 	return evs
 }
@@ -755,6 +757,8 @@ func violationKey(e event, rules map[string]tableRow) string {
 		what = "panic"
 	case e.MR == "baddata" || e.MR == "panic":
 		what = "MakeReader-" + e.MR
+	case e.Whole && e.MR != "ok" && e.Res == "ok":
+		what = "MakeReader-fails-on-whole-file"
 	case e.Res != "ok":
 		if r, ok := rules[e.Class]; ok && strings.HasPrefix(r.AsCoded, "abort") && e.Res == "eof" {
 			return "checkObjects-aborts/bare-EOF/cut-at-top-level-of-candidate"
@@ -846,14 +850,14 @@ func replay(ctx *core.Ctx, raw json.RawMessage) error {
 			return err
 		}
 		ob := observe(td, d)
-		e = event{Lo: int64(len(d)), Hi: int64(len(d)), Res: ob.Res, MR: ob.MR, Per: ob.Per, Class: "damage:" + c.Damage, Kind: "-", Damage: c.Damage, Note: ob.Note, Tag: ob.Tag}
+		e = event{Lo: int64(len(d)), Hi: int64(len(d)), Whole: true, Res: ob.Res, MR: ob.MR, Per: ob.Per, Class: "damage:" + c.Damage, Kind: "-", Damage: c.Damage, Note: ob.Note, Tag: ob.Tag}
 	} else {
 		if c.Cut < 0 || c.Cut > int64(len(t.data)) {
 			return core.Infra("replay: cut %d outside the regenerated file", c.Cut)
 		}
 		ob := observe(t, t.data[:c.Cut])
 		class, kind := cutClass(t, c.Cut)
-		e = event{Lo: c.Cut, Hi: c.Cut, Res: ob.Res, MR: ob.MR, Per: ob.Per, Class: class, Kind: kind, Note: ob.Note, Tag: ob.Tag}
+		e = event{Lo: c.Cut, Hi: c.Cut, Whole: c.Cut == int64(len(t.data)), Res: ob.Res, MR: ob.MR, Per: ob.Per, Class: class, Kind: kind, Note: ob.Note, Tag: ob.Tag}
 	}
 	fmt.Printf("  %s\n", describe(e, t))
 	e.D = 1
